@@ -16,6 +16,7 @@ import (
 
 	"github.com/arr-ai/arrai/pkg/arraictx"
 	"github.com/arr-ai/arrai/pkg/ctxfs"
+	"github.com/arr-ai/arrai/pkg/importcache"
 	"github.com/arr-ai/arrai/rel"
 	"github.com/arr-ai/arrai/syntax"
 )
@@ -333,21 +334,35 @@ func handleImportGraph(cs *impCase) *Obs {
 	ctx := ctxfs.SourceFsOnto(arraictx.InitRunCtx(context.Background()), fs)
 	src := fmt.Sprintf("//{./f%d}", c.Start)
 	obs.Sample = fmt.Sprintf("graph %s start f%d cyclic=%v", c.G, c.Start, c.Cyclic)
+	// one import cache for both evaluations, as a server or an embedding program holds it: the second
+	// evaluation must end like the first (a failed import must fail again, not wait for a stale marker)
+	ctx = importcache.WithNewImportCache(ctx)
 	var o Outcome
-	done := make(chan struct{})
-	go func() {
-		msg, frame, p := catch(func() { o.V, o.Err = syntax.EvaluateExpr(ctx, "/m/main.arrai", src) })
-		if p {
-			o = Outcome{Panic: msg, Frame: frame}
+	for round := 1; round <= 2; round++ {
+		var r Outcome
+		done := make(chan struct{})
+		go func() {
+			msg, frame, p := catch(func() { r.V, r.Err = syntax.EvaluateExpr(ctx, "/m/main.arrai", src) })
+			if p {
+				r = Outcome{Panic: msg, Frame: frame}
+			}
+			close(done)
+		}()
+		select {
+		case <-done:
+		case <-time.After(20 * time.Second):
+			obs.Fails = append(obs.Fails, Fail{Sig: Signature{Op: "import-graph", Symptom: "timeout", Msg: map[bool]string{true: "cyclic", false: "acyclic"}[c.Cyclic] + fmt.Sprintf("-round%d", round)},
+				Detail: fmt.Sprintf("import graph %s from f%d (cyclic: %v): evaluation %d through one import cache did not finish within 20 s", c.G, c.Start, c.Cyclic, round)})
+			obs.Restart = true
+			return obs
 		}
-		close(done)
-	}()
-	select {
-	case <-done:
-	case <-time.After(10 * time.Second):
-		obs.Fails = append(obs.Fails, Fail{Sig: Signature{Op: "import-graph", Symptom: "timeout", Msg: map[bool]string{true: "cyclic", false: "acyclic"}[c.Cyclic]},
-			Detail: fmt.Sprintf("import graph %s from f%d (cyclic: %v): evaluation did not finish within 10 s", c.G, c.Start, c.Cyclic)})
-		return obs
+		if round == 2 && r.Kind() != o.Kind() {
+			obs.Fails = append(obs.Fails, Fail{Sig: Signature{Op: "import-graph", Symptom: "mismatch", Msg: "second-evaluation-differs"},
+				Detail: fmt.Sprintf("import graph %s from f%d: first evaluation %s, second evaluation through the same cache %s", c.G, c.Start, o.String(), r.String())})
+		}
+		if round == 1 {
+			o = r
+		}
 	}
 	fail := func(sym, msgc, detail string) {
 		obs.Fails = append(obs.Fails, Fail{Sig: Signature{Op: "import-graph", Symptom: sym, Msg: msgc, Frame: o.Frame},
